@@ -2625,7 +2625,7 @@ class Interp:
             if rv is not None:
                 return self.apply(rv, args, kwargs, env, depth, e)
         if k == "ext" and recv[1].split(" ")[-1] == "struct" and name in ("pack", "unpack", "unpack_from", "calcsize") and args and not kwargs \
-                and all(a[0] == "c" for a in args) and ("ext:*." + name) not in self.hooks:
+                and all(a[0] == "c" for a in args) and (("ext:*." + name) not in self.hooks or getattr(self.hooks["ext:*." + name], "soft", False)):
             # the struct module on constants: computed (a pure function of its arguments)
             import struct as _struct
             try:
